@@ -1,5 +1,6 @@
 import XdistProofs.Contract.LoadRefines
 import XdistProofs.Contract.WorkStealRefines
+import XdistProofs.Ctl.WireWS
 /-!
 # C16 — the controller sends each worker a well-formed command stream (scheduler level: load, worksteal)
 
@@ -111,5 +112,40 @@ theorem C16_steal_in_book {v v' : View} {e e' : Env} {n k : Nat}
         · simp at h
           obtain ⟨_, rfl⟩ := h
           exact ⟨book, rfl, rfl, fun i hi => List.mem_of_mem_drop hi⟩
+
+/-! ### controller level (worksteal): every sequence of controller events -/
+
+/-- `NoAfter` implies at most one shutdown signal per worker -/
+theorem noAfter_one_shutdown {outs : List SOut} (h : NoAfter outs) (n : Nat) : (outs.filter (· = SOut.shutdown n)).length ≤ 1 := by
+  induction outs with
+  | nil => simp
+  | cons o t ih =>
+    have ht : NoAfter t := by
+      intro pre post m heq x hx
+      exact h (o :: pre) post m (by simp [heq]) x hx
+    by_cases ho : o = SOut.shutdown n
+    · subst ho
+      have hnone : ∀ x ∈ t, x ≠ SOut.shutdown n := by
+        intro x hx hxe
+        subst hxe
+        exact h [] t n rfl _ hx rfl
+      have : t.filter (· = SOut.shutdown n) = [] := by
+        rw [List.filter_eq_nil_iff]; intro x hx; simpa using hnone x hx
+      simp [List.filter_cons, this]
+    · simp only [List.filter_cons, ho, decide_false, Bool.false_eq_true, ↓reduceIte]
+      exact ih ht
+
+/-- **`--dist worksteal`, controller level**: along every sequence of controller events whose steal answers are legal
+    (each answer lists tests of the answering worker's book), whatever workers become ready, finish, crash, are replaced or
+    send undecodable data, and whatever stop conditions occur: the complete wire log has nothing addressed to a worker behind
+    its shutdown signal, and every worker gets at most one shutdown signal. -/
+theorem C16_controller_worksteal (k mf : Nat) (mr : Option Int) (evs : List (Ctl.Event τ)) {st' : Ctl.State (WorkSteal.State τ) τ}
+    (hok : Ctl.AllEvOk Ctl.wsI WorkSteal.OpLegal (Ctl.init Ctl.wsI (WorkSteal.init k) k mf mr) evs)
+    (h : Ctl.runLoop Ctl.wsI (Ctl.init Ctl.wsI (WorkSteal.init k) k mf mr) evs = .ok st') :
+    NoAfter st'.env.outs ∧ (∀ n, (st'.env.outs.filter (· = SOut.shutdown n)).length ≤ 1) ∧ SentSync st'.env := by
+  have hinv := Ctl.lift_runLoop Ctl.wsI_schedInv evs (st := Ctl.init Ctl.wsI (WorkSteal.init (τ := τ) k) k mf mr)
+    (Ctl.wsI_init_inv k) hok h
+  obtain ⟨_, _, _, _, h1, h2⟩ := hinv
+  exact ⟨h1, fun n => noAfter_one_shutdown h1 n, h2⟩
 
 end Xdist.Props.C16
